@@ -8,7 +8,7 @@
    `wf` is the splitter's post-condition: the two space parts are blank, an empty value
    has no space after it. *)
 From PV Require Import Lib.Bytes Model.Tabs Model.Varalign Model.LayoutFix
-  Proofs.Tabs Proofs.VaralignBlanks Proofs.VaralignFile Proofs.VaralignSingle Proofs.LayoutFix Proofs.C15Final.
+  Proofs.Tabs Proofs.VaralignBlanks Proofs.VaralignFile Proofs.VaralignSingle Proofs.LayoutFix Proofs.C15Final Proofs.C15Blank.
 Open Scope Z_scope.
 
 (* ===== width arithmetic ===== *)
@@ -58,6 +58,32 @@ Theorem C15_alignWith_reaches : forall s other,
   exists a, alignWith s other = Some (s ++ a) /\ tab_width (s ++ a) = tab_width other /\ blankb a = true.
 Proof. exact alignWith_reaches. Qed.
 Print Assumptions C15_alignWith_reaches.
+
+(* ===== "blank" is byte-exact ===== *)
+
+(* In every statement below, "blank" (blankb, strip_blanks, blanks_only, blank_eq, trimmed_of, wf)
+   means the two bytes 32 (space) and 9 (tab) ONLY: not \f \v \r, not U+00A0 / U+0085 / U+2028 in
+   any encoding, not a lone 0x85 / 0xA0 byte. *)
+Theorem C15_blank_is_space_or_tab : forall s,
+  blankb s = true <-> Forall (fun c => c = 32 \/ c = 9)%N s.
+Proof. exact blankb_iff. Qed.
+Print Assumptions C15_blank_is_space_or_tab.
+
+Theorem C15_strip_blanks_is_space_and_tab : forall s,
+  strip_blanks s = filter (fun c => negb ((c =? 32) || (c =? 9))%N) s.
+Proof. exact strip_blanks_spec. Qed.
+Print Assumptions C15_strip_blanks_is_space_and_tab.
+
+(* a logical line whose last raw line ends in any byte other than space and tab is not touched by
+   CheckTrailingWhitespace (in particular "...\r", "...\f", "...\xc2\xa0") *)
+Theorem C15_trailing_nonblank_end_untouched : forall raws t c,
+  last raws [] = t ++ [c] -> c <> 32%N -> c <> 9%N -> checkTrailingWhitespace raws = Ok raws.
+Proof. exact trailing_nonblank_end_untouched. Qed.
+Print Assumptions C15_trailing_nonblank_end_untouched.
+
+Example C15_witness_crlf : checkTrailingWhitespace [[86; 61; 9; 118; 32; 13]%N] = Ok [[86; 61; 9; 118; 32; 13]%N]
+  /\ checkTrailingWhitespace [[86; 61; 9; 118; 194; 160; 32; 9]%N] = Ok [[86; 61; 9; 118; 194; 160]%N].
+Proof. split; vm_compute; reflexivity. Qed.
 
 (* ===== VaralignBlock: every fix, continuation lines included, all inputs ===== *)
 
